@@ -34,6 +34,21 @@ CLAIMED = {
         note="Reals in the theorems (pi = PI, exact trigonometry; Coq's total division covers the right-angle cotangent); not proved: zero net torque of the bending and angle-regularisation terms and rotation equivariance (judged by the oracle on every case); placements within 1e3 cell sizes of the origin (the absolute-coordinate signed volume used by the orientation repair loses (distance/size)^3*eps).",
         technique="Coq proof over R (closed-surface half-edge cancellation, Coquelicot derivative, trigonometric identities) of a hand-written Gallina model + bit-exact differential correspondence + momentum/energy-derivative oracle",
         design="§6 C02"),
+    "C01": dict(
+        text="Theorems about the operations of local_mesh_refiner as operations on the triangle list (MeshOps.v): edge split, edge collapse (under the link condition the code tests, plus distinct opposite nodes), edge swap (under the code's guards) and compaction each preserve the operational definition of a closed, consistently oriented surface with V-E+F=2 and no repeated node (ValidSurface: no directed half-edge twice, half-edge set closed under reversal, Euler count); hence every well-formed trace of operations does, for ANY node positions and momenta (positions only select which operations fire); an edge split leaves the signed volume unchanged exactly; the boolean oracle valid_surface_b is proved equivalent to ValidSurface. The real passes are tied to this model through a guarded trace hook: every refine_mesh pass / single operation of a generated history is replayed on the extracted operations and the resulting triangle set, labels and node states are compared with the store dump; the extracted proved oracle plus an independent Python recomputation of validity and of the complete bookkeeping (edge-face adjacency, counts, free slots, ids), cached normals vs winding and orientation judge every dump.",
+        note="The slot-level store (free queues, std::set order, face ids) is not modelled: its coherence is recomputed on every dump instead of proved; the loop of refine_mesh is observed through the trace, not transcribed; 'genus 0' is the operational definition (the classification of surfaces is not proved; ValidSurface has no vertex-manifoldness clause, which is why the collapse theorem carries the distinct-apex guard: the unguarded statement is refuted in MeshOpsProofs.collapse_valid_false); positivity of the volume is judged only when the displacement history left a fat, outward cell.",
+        technique="Coq proof (half-edge multiset permutations, Euler count) of hand-written abstract operations + trace-replay correspondence through a guarded hook + proved extracted oracle on every store dump",
+        design="§6 C01"),
+    "C08": dict(
+        text="Theorems about the bookkeeping state machine of run_iteration / cell_divider::run (Population.v): the invariant 'list index = position, persistent ids unique and below the id counter' holds initially and is preserved by every simultaneous-division and removal event, hence over every history; ids are never reused and a removed or divided cell's id never reappears; a reference stored as a list index designates the intended cell when dereferenced; one division removes the mother's id, appends exactly two fresh ids and advances the counter by two; a failed division changes nothing. The model is fed the event sequence observed on the real solver (2-6 cells, divisions and removals forced at chosen iterations and list positions) and its ids/counter are compared after every iteration; the driver dereferences, bounds-checked, every stored reference (coupling partner cell/node, face owner, face-type index) after every iteration.",
+        note="Single thread; couplings are checked at the end of an iteration except in the iteration that erased cells (they refer to the list as it was when used and are reset before their next use); one-directional couplings are by design; which vanished cells were mothers is inferred from the dump.",
+        technique="Coq proof (invariant by induction over event histories) of a hand-written state-machine model + event-sequence correspondence with the real solver + bounds-checked dereference oracle",
+        design="§6 C08"),
+    "C11": dict(
+        text="Theorems over R about the node-state side of the remeshing operations (MeshOps.v): every operation, hence every well-formed pass, conserves the total momentum (2/3-2/3-1/3 split, sum on merge); a node that an operation neither creates nor deletes keeps its position; every new node is the midpoint of the edge; the triangles a split produces carry the label of the triangle they divide; a split keeps area and volume term exactly; an operation whose guard holds splits only an edge longer than the maximum and collapses only an edge shorter than the minimum that satisfies the link condition. Every pass of generated histories is replayed from its trace (guarded hook) on the extracted model: positions, momenta, labels, triangles bit-for-bit, and the guard of each traced operation is evaluated bit-exactly in the model state at the moment it fired; total momentum, unmoved survivors, volume/area change only through collapses and swaps, the fixpoint on conforming meshes and return-or-throw within a time budget are judged on the implementation's dumps.",
+        note="Termination and the fixpoint on conforming meshes are observed (time budget per history, exception path), not proved: the loop of refine_mesh is not transcribed and its guard grows with every split; the swap decision (triangle score from cached areas) is checked through the swap guard only.",
+        technique="Coq proof over R of hand-written abstract operations + trace-replay correspondence through a guarded hook + conservation/selectivity oracle",
+        design="§6 C11"),
 }
 
 PENDING_REASON = "not claimed yet: model, theorems and correspondence for this property are still being built (see DESIGN.md §9 staging); nothing is asserted about it"
@@ -60,9 +75,9 @@ def main():
         version=1,
         setup_cmd="./setup.sh",
         hooks=dict(guard="SIMUCELL3D_VERIF",
-                   enable="drivers are compiled from /repo's working tree with -DSIMUCELL3D_VERIF (no guarded code exists in /repo so far: configuration, protected access and clock seeding are done from outside, see DESIGN.md §1)",
+                   enable="drivers are compiled from /repo's working tree with -DSIMUCELL3D_VERIF (one add-only hook: a weak trace callback for completed split/merge/swap operations in local_mesh_refiner; configuration, protected access and clock seeding are done from outside, see DESIGN.md §1)",
                    baseline_off_cmd="cmake -G Ninja -B /repo/_build -S /repo && cmake --build /repo/_build -j16 && ctest --test-dir /repo/_build -j8 --timeout 900",
-                   source_commits=[], add_only=True),
+                   source_commits=["02c4e89"], add_only=True),
         engines=[dict(name="coq-model-correspondence", path="check",
                       serves_properties=[c["property_id"] for c in checks],
                       kind_free_text="Coq 8.16 theorems about hand-written Gallina models; the same models extracted to OCaml (binary64) and run against C++ drivers built from /repo's working tree; property oracles on the implementation's outputs for the failing-input search")],
